@@ -131,6 +131,71 @@ theorem optimal_simple (flip : Bool) (xm ym : Metric) (N : Nat) (groups : List (
   rw [hobj, hm]
   exact le_trans h1 h2
 
+/-- the reported objective is the `len(group) / n`-weighted sum of the `y` of every group's interpolated curve at `x_best`;
+    by `C04.fit_predict_consistent_simple` that `y` is the group's expected objective metric computed from `_pmf_predict`
+    of the fitted model on its training rows — so the optimality statements are about what `predict` really does -/
+theorem objective_is_weighted_curve (flip : Bool) (xm ym : Metric) (N : Nat) (groups : List (List Row))
+    (force : Option Nat) (fit : Fit) (hfit : fitSimple flip xm ym N groups force = some fit) :
+    fit.objective = (List.zipWith (fun g (r : Interp) => freq groups g * r.y) groups fit.interps).sum := by
+  obtain ⟨_, _, best, _, _, _, hint, _, hobj, _⟩ := fitSimple_some hfit
+  rw [hobj, hint, objSimple_eq]
+
+/-- **tie rule of the arg-max (`Series.idxmax`)**: the fitted grid index is the FIRST grid point attaining the maximum of
+    the overall objective curve: no grid point has a larger value and every EARLIER grid point has a strictly smaller one
+    (so the fitted rule is a function of the data alone — reproducible — also when several grid points tie) -/
+theorem fitted_index_first_maximum_simple (flip : Bool) (xm ym : Metric) (N : Nat) (groups : List (List Row)) (fit : Fit)
+    (hfit : fitSimple flip xm ym N groups none = some fit) :
+    ∃ hulls cs, hullsOf flip xm ym groups = some hulls ∧ curves hulls N = some cs ∧ fit.iBest < cs.length ∧
+      (∀ i (hi : i < cs.length), objSimple groups cs[i] ≤ fit.objective) ∧
+      (∀ i (hi : i < cs.length), i < fit.iBest → objSimple groups cs[i] < fit.objective) := by
+  obtain ⟨hulls, cs, best, hh, hc, hb, _, _, hobj, hib⟩ := fitSimple_some hfit
+  obtain ⟨hi, hbest⟩ := List.getElem?_eq_some_iff.mp hb
+  simp only [Option.getD_none] at hib
+  have hm : (cs.map (objSimple groups))[argmaxFirst (cs.map (objSimple groups))]? = some fit.objective := by
+    rw [← hib, hobj]; simp [hb]
+  have hne : cs.map (objSimple groups) ≠ [] := by
+    intro h; have := congrArg List.length h; simp only [List.length_map, List.length_nil] at this; omega
+  obtain ⟨m, hm', hmax⟩ := argmaxFirst_spec _ hne
+  rw [hm] at hm'
+  simp only [Option.some.injEq] at hm'
+  refine ⟨hulls, cs, hh, hc, hi, ?_, ?_⟩
+  · intro i hi'
+    rw [hm']
+    exact hmax _ (List.mem_map.mpr ⟨cs[i], List.getElem_mem hi', rfl⟩)
+  · intro i hi' hlt
+    exact argmaxFirst_first (cs.map (objSimple groups)) i _ _ (by rw [← hib]; exact hlt)
+      (by simp [List.getElem?_eq_getElem hi']) hm
+
+/-- the same for equalized odds: `iBest` is the first grid index maximising the objective of `(i/N, y_min[i])` -/
+theorem fitted_index_first_maximum_EO (flip : Bool) (obj : Metric) (N : Nat) (groups : List (List Row)) (fit : Fit)
+    (yBest : Rat) (hfit : fitEO flip obj N groups none = some (fit, yBest)) :
+    ∃ ymins : List Rat, ymins.length = N + 1 ∧ ymins[fit.iBest]? = some yBest ∧
+      (∀ i (hi : i < ymins.length), objEO obj groups (gridVal N i) ymins[i] ≤ fit.objective) ∧
+      (∀ i (hi : i < ymins.length), i < fit.iBest → objEO obj groups (gridVal N i) ymins[i] < fit.objective) := by
+  obtain ⟨hulls, cs, ymins, best, hh, hc, hy, hb, hyb, _, _, hobjv, hib⟩ := fitEO_some hfit
+  have hclen := (curves_some hc).1
+  obtain ⟨hylen, _⟩ := allSome_map_get hy
+  have hyl : ymins.length = N + 1 := by omega
+  simp only [Option.getD_none] at hib
+  set objs := (List.range (N + 1)).zipWith (fun i y => objEO obj groups (gridVal N i) y) ymins with hobjs
+  have hiB : fit.iBest < N + 1 := by have := (List.getElem?_eq_some_iff.mp hb).1; omega
+  have hget : ∀ i, i < N + 1 → ∀ (h : i < ymins.length), objs[i]? = some (objEO obj groups (gridVal N i) ymins[i]) :=
+    fun i hi h => getElem?_zipWith_range _ hyl i hi
+  have hyb' : ymins[fit.iBest]'(by omega) = yBest := (List.getElem?_eq_some_iff.mp hyb).2
+  have hm : objs[argmaxFirst objs]? = some fit.objective := by
+    rw [← hib, hget fit.iBest hiB (by omega), hobjv, hyb']
+  have hne : objs ≠ [] := by
+    intro h; have := congrArg List.length h; simp [hobjs, hyl] at this
+  obtain ⟨m, hm', hmax⟩ := argmaxFirst_spec _ hne
+  rw [hm] at hm'
+  simp only [Option.some.injEq] at hm'
+  refine ⟨ymins, hyl, hyb, ?_, ?_⟩
+  · intro i hi
+    rw [hm']
+    exact hmax _ (List.mem_of_getElem? (hget i (by omega) hi))
+  · intro i hi hlt
+    exact argmaxFirst_first objs i _ _ (by rw [← hib]; exact hlt) (hget i (by omega) hi) hm
+
 /-- objective of a deterministic rule applied to every group -/
 def constObjective (ym : Metric) (groups : List (List Row)) (o : Op) : Rat :=
   (List.zipWith (fun g (_ : Unit) => freq groups g * ym.eval (confusion o g)) groups
@@ -309,5 +374,13 @@ example : (fitEO false .accuracy_score 4 ex none).map (fun f => (f.1.iBest, f.2,
 example : (tradeoffPoints false .false_positive_rate .true_positive_rate gA).map
     (fun pts => ((upperHull pts).length, pts.length, supportsAll (upperHull pts) pts)) = some (4, 4, true) := by
   decide +kernel
+
+-- arg-max tie rule: two uninformative groups, every grid point has balanced accuracy 1/2 (grid index 3 forced: same
+-- objective); the fit picks the FIRST one, index 0
+def tie : List (List Row) := [[⟨1, true⟩, ⟨1, false⟩], [⟨0, true⟩, ⟨0, false⟩, ⟨0, true⟩]]
+example : (fitSimple false .selection_rate .balanced_accuracy_score 4 tie none).map (fun f => (f.iBest, f.objective)) =
+    some (0, 1/2) ∧
+    (fitSimple false .selection_rate .balanced_accuracy_score 4 tie (some 3)).map (fun f => (f.iBest, f.objective)) =
+    some (3, 1/2) := by decide +kernel
 
 end C05
